@@ -21,7 +21,7 @@ func full(n string) string {
 }
 
 var gFolders = []string{"d", "d/e", "x", "d/d", "b", "x/y"}
-var gBases = []string{"f", "g", "h", "d", "b", "long-name.bin"}
+var gBases = []string{"f", "g", "h", "d", "b", "long-name.bin", "d.txt", "e.x", "x-1", "y!"} // the last four sort BEFORE "<folder>/" in a prefix listing
 
 type gen struct {
 	r     *Rng
